@@ -69,9 +69,12 @@ def tree_key(repo):
                 h.update(hashlib.sha256(fh.read()).digest())
     h.update(os.path.abspath(repo).encode())
     # extraction logic version: bump when core.py changes what it stores
-    h.update(b'core-v11')
+    h.update(b'core-v12')
     return h.hexdigest()[:24]
 
+
+import glob as _glob
+CLANG_RES_INC = (sorted(_glob.glob('/usr/lib/llvm-14/lib/clang/*/include')) or ['/usr/lib/llvm-14/lib/clang/14.0.6/include'])[-1]
 
 CROSS_SYS = ['-isystem', XINC, '-isystem', '/usr/include/c++/12', '-isystem', '/usr/include/x86_64-linux-gnu/c++/12',
              '-isystem', '/usr/include/x86_64-linux-gnu', '-isystem', '/usr/include']
@@ -86,11 +89,14 @@ CONFIGS = {
     'K3': dict(extra=['--target=riscv64-linux-gnu', '-march=rv64gc'] + CROSS_SYS,
                drop=['-maes', '-mssse3', '-mavx2'], desc='RV64GC cross parse (JitCompilerRV64, scalar)'),
     'K4': dict(extra=['-march=x86-64-v3', '-maes'], drop=[], desc='x86-64 with SSE4.1/AVX2/BMI2 enabled at compile time (the documented -DARCH=native build on a current CPU); only the units that use the vector wrappers'),
+    'K5': dict(extra=['--target=x86_64-w64-mingw32', '-ffreestanding', '-isystem', os.path.join(VERIF, 'support', 'xinc_llp'), '-isystem', CLANG_RES_INC], drop=['-maes', '-mssse3', '-mavx2'],
+               desc='LLP64 data model (64-bit Windows / MinGW: long is 32 bits); only the C units whose arithmetic could depend on the width of long'),
 }
 
 # configurations that are analysed for a subset of the units only
 ONLY_UNITS = {
     'K4': ['src/soft_aes.cpp', 'src/aes_hash.cpp', 'src/instructions_portable.cpp'],
+    'K5': ['src/reciprocal.c'],
 }
 
 # extra units not in the host build that exist only for a target
